@@ -100,6 +100,7 @@ type Enc struct {
 	backOrd   map[*ssa.BasicBlock]int
 	selfGhost map[string]ghostInst
 	allWrites map[string]bool
+	axiomMemo map[string]bool
 }
 
 func (w *World) tagFor(name string) int {
